@@ -4,6 +4,7 @@ import XrsVerif.Gen.ProximityDask
 import XrsVerif.Gen.Kernels
 import Mathlib.Algebra.Order.Field.Rat
 import Mathlib.Tactic.Linarith
+import Mathlib.Tactic.Ring
 import Mathlib.Tactic.Positivity
 /-
   C07 -- Chunked proximity equals whole-raster proximity.
@@ -167,6 +168,62 @@ theorem chunked_eq_whole_partial {α β : Type} (fill : α) (dflt : β) (dr dc :
 section sweep
 open XrsVerif.Prox
 
+theorem adiff_cast_int (a b : Nat) : ((adiff a b : Nat) : ℤ) = |(a : ℤ) - (b : ℤ)| := by
+  unfold adiff
+  rcases le_total a b with h | h
+  · rw [abs_of_nonpos (by omega)]; omega
+  · rw [abs_of_nonneg (by omega)]; omega
+
+/-- **the halo the code computes covers max_distance in the proximity model**: grid steps `sx·u`, `sy·u` (u = coordinate
+    unit), threshold `m` of the model exact for `maxd` (`hexact`: `2·d ≤ m` means `d·u² ≤ maxd²`, true for
+    `m = ⌈2·maxd²/u²⌉` whenever frac(maxd²/u²) ≤ 1/2): the generated `pad maxd csx csy` is a `HaloCovers` halo -/
+theorem generated_pad_covers (c : Cfg) (hpl : c.Planar) (hsx : 0 < c.sx) (hsy : 0 < c.sy)
+    (u maxd : ℚ) (hu : 0 < u) (hmd : 0 ≤ maxd) (m : Nat) (hmax : c.max2x2 = some m)
+    (hexact : ∀ d : Nat, 2 * d ≤ m → (d : ℚ) * u ^ 2 ≤ maxd ^ 2) :
+    HaloCovers c (proximity_dask.pad maxd (c.sx * u) (c.sy * u)).1.toNat
+      (proximity_dask.pad maxd (c.sx * u) (c.sy * u)).2.toNat := by
+  intro r1 c1 r2 c2 hw
+  unfold withinMax at hw
+  rw [hmax] at hw
+  simp only [decide_eq_true_eq] at hw
+  have hd := hexact _ hw
+  have hcx : (0 : ℚ) < c.sx * u := by positivity
+  have hcy : (0 : ℚ) < c.sy * u := by positivity
+  set dy : ℤ := (r1 : ℤ) - r2 with hdy
+  set dx : ℤ := (c1 : ℤ) - c2 with hdx
+  have ey : ((adiff r1 r2 : Nat) : ℚ) = ((|dy| : ℤ) : ℚ) := by rw [hdy, ← adiff_cast_int]; simp
+  have ex : ((adiff c1 c2 : Nat) : ℚ) = ((|dx| : ℤ) : ℚ) := by rw [hdx, ← adiff_cast_int]; simp
+  have key : |dy| ≤ (proximity_dask.pad maxd (c.sx * u) (c.sy * u)).1 ∧
+      |dx| ≤ (proximity_dask.pad maxd (c.sx * u) (c.sy * u)).2 := by
+    rcases hpl with h | h
+    · apply halo_covers_euclidean maxd _ _ hcx hcy hmd dy dx
+      unfold dist2 at hd
+      rw [h] at hd
+      simp only at hd
+      push_cast at hd
+      rw [ey, ex] at hd
+      have e1 : ((dx : ℚ) * (c.sx * u)) ^ 2 = ((|dx| : ℤ) : ℚ) * c.sx * (((|dx| : ℤ) : ℚ) * c.sx) * u ^ 2 := by
+        push_cast; rw [mul_pow, ← sq_abs (dx : ℚ)]; ring
+      have e2 : ((dy : ℚ) * (c.sy * u)) ^ 2 = ((|dy| : ℤ) : ℚ) * c.sy * (((|dy| : ℤ) : ℚ) * c.sy) * u ^ 2 := by
+        push_cast; rw [mul_pow, ← sq_abs (dy : ℚ)]; ring
+      rw [e1, e2]
+      nlinarith [hd]
+    · apply halo_covers_manhattan maxd _ _ hcx hcy dy dx
+      unfold dist2 at hd
+      rw [h] at hd
+      simp only at hd
+      push_cast at hd
+      rw [ey, ex] at hd
+      apply le_of_sq_le (by positivity) hmd
+      push_cast at hd ⊢
+      nlinarith [hd]
+  have h1 := adiff_cast_int r1 r2
+  have h2 := adiff_cast_int c1 c2
+  have h3 : |dy| = |(r1 : ℤ) - r2| := rfl
+  have h4 : |dx| = |(c1 : ℤ) - c2| := rfl
+  obtain ⟨k1, k2⟩ := key
+  constructor <;> omega
+
 /-- **halo theorem for the specification of proximity** (planar metrics, any cell sizes, any block, any halo that covers
     max_distance, window clipped at the raster edge): the exact nearest-target distance cut at max_distance computed on
     the block's halo window equals, at every cell of the block, the one computed on the whole raster. -/
@@ -176,6 +233,19 @@ theorem window_exact_eq_whole (c : Cfg) (hpl : c.Planar) (tg : Nat → Nat → B
     exactCut ((haloWin c a0 a1 b0 b1 py px).cfg c) ((haloWin c a0 a1 b0 b1 py px).tg tg)
       (r - (haloWin c a0 a1 b0 b1 py px).r0) (p - (haloWin c a0 a1 b0 b1 py px).c0) = exactCut c tg r p :=
   exactCut_window c hpl tg a0 a1 b0 b1 py px hc hH hW r p hr0 hr1 hp0 hp1
+
+/-- ... in particular with the halo `_process_dask` computes (`Gen.proximity_dask.pad`, regenerated from the source) -/
+theorem window_exact_eq_whole_generated_pad (c : Cfg) (hpl : c.Planar) (hsx : 0 < c.sx) (hsy : 0 < c.sy)
+    (u maxd : ℚ) (hu : 0 < u) (hmd : 0 ≤ maxd) (m : Nat) (hmax : c.max2x2 = some m)
+    (hexact : ∀ d : Nat, 2 * d ≤ m → (d : ℚ) * u ^ 2 ≤ maxd ^ 2)
+    (tg : Nat → Nat → Bool) (a0 a1 b0 b1 : Nat) (hH : a1 ≤ c.H) (hW : b1 ≤ c.W)
+    (r p : Nat) (hr0 : a0 ≤ r) (hr1 : r < a1) (hp0 : b0 ≤ p) (hp1 : p < b1) :
+    let py := (proximity_dask.pad maxd (c.sx * u) (c.sy * u)).1.toNat
+    let px := (proximity_dask.pad maxd (c.sx * u) (c.sy * u)).2.toNat
+    exactCut ((haloWin c a0 a1 b0 b1 py px).cfg c) ((haloWin c a0 a1 b0 b1 py px).tg tg)
+      (r - (haloWin c a0 a1 b0 b1 py px).r0) (p - (haloWin c a0 a1 b0 b1 py px).c0) = exactCut c tg r p :=
+  window_exact_eq_whole c hpl tg a0 a1 b0 b1 _ _
+    (generated_pad_covers c hpl hsx hsy u maxd hu hmd m hmax hexact) hH hW r p hr0 hr1 hp0 hp1
 
 /-- the sweep on the block's halo window, read at the block cell (r, p) of the raster -/
 def winProx (c : Cfg) (tg : Nat → Nat → Bool) (a0 a1 b0 b1 py px r p : Nat) : Option Nat :=
@@ -309,6 +379,11 @@ end sweep
 
 /-! ## non-vacuity -/
 example : (proximity_dask.pad 5 2 (1/2)) = (10, 3) := by decide +kernel
+/-- `generated_pad_covers`: the exactness hypothesis on the threshold holds for the witness (max_distance 2.9, unit 1, m = 17) -/
+example : ∀ d : Nat, 2 * d ≤ 17 → (d : ℚ) * (1 : ℚ) ^ 2 ≤ (29 / 10 : ℚ) ^ 2 := by
+  intro d h
+  have : (d : ℚ) ≤ 8 := by exact_mod_cast (by omega : d ≤ 8)
+  norm_num; linarith
 /-- `window_eq_whole_single_target` / `window_exact_eq_whole`: a halo that covers max_distance exists for every finite
     threshold (here 5x5 unit cells, max_distance 2: one more row is beyond it) -/
 example : Prox.HaloCovers { H := 5, W := 5, sx := 1, sy := 1, metric := .euclid, max2x2 := some 8 } 2 2 :=
